@@ -22,5 +22,7 @@ for s in $LIST; do
   p=$(echo $s | cut -c1-3)
   tools/killmatrix.sh $s $p >> $OUT 2>&1
   [ "$s" = "C08d" ] && tools/killmatrix.sh C08d C07 >> $OUT 2>&1
+  # round 4: seeds whose behaviour belongs to a neighbouring property's check
+  case "$s" in C02g|C06e) tools/killmatrix.sh $s C13 >> $OUT 2>&1 ;; C06g|C12g) tools/killmatrix.sh $s C19 >> $OUT 2>&1 ;; esac
 done
 echo "done: $(grep -c 'exit=1' $OUT) reported, $(grep -c 'exit=0' $OUT) not reported, $(grep -c 'exit=2' $OUT) inconclusive" >> $OUT
